@@ -6,6 +6,7 @@ package main
 import (
 	"fmt"
 	"go/types"
+	"math/big"
 	"strings"
 )
 
@@ -144,6 +145,14 @@ func frameFact(nw, prev, clock Term) Term {
 
 func (u *Unit) setHeap(st *State, key string, t Term) { st.heap[key] = t }
 
+// ghostKey: heap key of a ghost variable leaf ("$:name" for scalars).
+func ghostKey(name, path string, n int) string {
+	if n == 1 {
+		return "$:" + name
+	}
+	return "$:" + name + "#" + path
+}
+
 func fKey(tkey, path string) string { return "F:" + tkey + ":" + path }
 func mKey(tkey, path string) string { return "M:" + tkey + ":" + path }
 
@@ -174,6 +183,20 @@ func (u *Unit) sliceFacts(st *State, v Value) {
 	st.assume(Le(v.slen(), v.scap()))
 }
 
+// capBound: cap * element size <= 2^46 bytes (a slice fits into the address space).
+func capBound(t types.Type) Term {
+	sz := int64(1)
+	if t != nil {
+		if sl, ok := t.Underlying().(*types.Slice); ok {
+			if n := elemSize(sl.Elem()); n > 1 {
+				sz = n
+			}
+		}
+	}
+	b := new(big.Int).Lsh(big.NewInt(1), 46)
+	return BigLit(b.Div(b, big.NewInt(sz)))
+}
+
 // typeFacts assumes machine ranges / slice well-formedness for all leaves of v.
 func (u *Unit) typeFacts(st *State, v Value) {
 	ls := flatten(v.T)
@@ -183,7 +206,7 @@ func (u *Unit) typeFacts(st *State, v Value) {
 			st.assume(Le(IntLit(0), off))
 			st.assume(Le(IntLit(0), ln))
 			st.assume(Le(ln, cp))
-			st.assume(Le(cp, pow2(46))) // no slice exceeds the address space
+			st.assume(Le(cp, capBound(ls[i+1].T))) // no slice exceeds the address space
 			continue
 		}
 		if strings.HasSuffix(l.Path, ".base") || strings.HasSuffix(l.Path, ".off") || strings.HasSuffix(l.Path, ".cap") {
@@ -360,7 +383,9 @@ func (u *Unit) load(st *State, lv LV) Value {
 			u.rangeFact(st, l, out.L[i])
 		}
 	case lvGhostVar:
-		out.L[0] = u.heapArr(st, "$:"+lv.name, ls[0].Sort)
+		for i, l := range ls {
+			out.L[i] = u.heapArr(st, ghostKey(lv.name, l.Path, len(ls)), l.Sort)
+		}
 	case lvGhostField:
 		arr := u.heapArr(st, "$F:"+lv.name, ArrSort(SInt, ls[0].Sort))
 		out.L[0] = Select(arr, lv.ref)
@@ -422,7 +447,7 @@ func (u *Unit) sliceFacts2(st *State, v Value) {
 			st.assume(Le(IntLit(0), v.L[i-1]))
 			st.assume(Le(IntLit(0), v.L[i]))
 			st.assume(Le(v.L[i], v.L[i+1]))
-			st.assume(Le(v.L[i+1], pow2(46))) // no slice exceeds the address space
+			st.assume(Le(v.L[i+1], capBound(ls[i+1].T))) // no slice exceeds the address space
 		}
 	}
 }
@@ -531,7 +556,9 @@ func (u *Unit) store(st *State, lv LV, v Value) {
 			}
 		}
 	case lvGhostVar:
-		st.heap["$:"+lv.name] = v.L[0]
+		for i, l := range ls {
+			st.heap[ghostKey(lv.name, l.Path, len(ls))] = v.L[i]
+		}
 	case lvGhostField:
 		key := "$F:" + lv.name
 		arr := u.heapArr(st, key, ArrSort(SInt, ls[0].Sort))
@@ -642,15 +669,19 @@ func (u *Unit) havocGhost(st *State, name string) { u.havocGhost2(st, name, fals
 func (u *Unit) havocGhost2(st *State, name string, loopFrame bool) {
 	u.nextHavoc++
 	id := u.nextHavoc
-	for _, key := range []string{"$:" + name, "$F:" + name} {
-		k := key
-		if t, ok := st.heap[k]; ok {
-			nw := u.d.Const(fmt.Sprintf("H%d_%s", id, k), t.Sort)
-			st.heap[k] = nw
-			if loopFrame && u.old != nil {
-				u.frameAssume(st, k, nw)
-			}
+	match := func(key string) bool {
+		return key == "$:"+name || key == "$F:"+name || strings.HasPrefix(key, "$:"+name+"#")
+	}
+	for _, k := range sortedKeys(st.heap) {
+		if !match(k) {
+			continue
+		}
+		t := st.heap[k]
+		nw := u.d.Const(fmt.Sprintf("H%d_%s", id, k), t.Sort)
+		st.heap[k] = nw
+		if loopFrame && u.old != nil {
+			u.frameAssume(st, k, nw)
 		}
 	}
-	st.havocs = append(st.havocs, havocEvent{id: id, loopFrame: loopFrame, pred: func(key string) bool { return key == "$:"+name || key == "$F:"+name }})
+	st.havocs = append(st.havocs, havocEvent{id: id, loopFrame: loopFrame, pred: match})
 }
